@@ -374,3 +374,6 @@ OUTSIDE = ["PYTHONHASHSEED, cwd and logging reconfiguration as PROCESS-level fac
            "exception MESSAGE text that names two tags in iteration order (only the exception type is compared)"]
 TRUSTED = ["CrossHair/z3", "VSet rewrite of set(), set displays and set comprehensions in the analysed modules (loader, option vsets): hash-ordered containers other than sets do not exist in CPython >= 3.7",
            "integer tokens", "in-memory MemPath standing for the .fai/.agp paths"]
+
+TECHNIQUE = ("non-interference checks with CrossHair + z3: set iteration order, header text, invocation order, cache warm/cold, input format and buffer size as symbolic variables")
+LEVEL_TEXT = ("The allegedly irrelevant quantity is made symbolic and the outputs are asserted not to depend on it.")
